@@ -100,149 +100,161 @@ def check(ctx):
         t = prog.ann_to_type(fc.module, fc_fields[field][0], fc)
         return prog.classes.get(t[1][1]) if t[0] == 'list' and t[1][0] == 'cls' else None
 
-    # ---- dispatch of parse_element, per <class> value ------------------------------------------------------------------
-    # For every tag of the schema the dispatching function is specialised by constant folding (dznverif.specialise): what
-    # remains is what the parser does for an element of that class - whether the source says it with an if / elif chain, a
-    # table of parse functions, a table of records or a table of handler methods.
+    # ---- the traversal: process() / parse_element and whatever they are organised into -------------------------------------
+    # Decided by interpretation of process() on a scenario document when the code can be interpreted (any organisation of the
+    # traversal); the shape rules below decide otherwise.
     from ..specialise import residual
-    disp, var = pe, 'cls'
-    for m_ in parser.methods.values():
-        for a_ in iter_own_nodes(m_.node):
-            if isinstance(a_, ast.Assign) and len(a_.targets) == 1 and isinstance(a_.targets[0], ast.Name) and \
-                    isinstance(a_.value, ast.Call) and getattr(a_.value.func, 'id', '') == 'get_class_value':
-                disp, var = m_, a_.targets[0].id
-    schema_tags = sorted({CLASS_TAG[c.name] for c in amod.classes.values() if c.name in CLASS_TAG and 'fqn' in c.fields}
-                         | {'file-name', 'import', 'namespace'})
-    assume_subject = None
-    if disp is pe and not any(isinstance(x, ast.Name) and x.id == 'cls' for x in iter_own_nodes(pe.node)):
-        # the class value is not held in a local of parse_element: the dispatching function is the method that compares one
-        # and the same expression with the most class tags (`match visit.cls: case 'component': ...` in a helper method)
-        best = (0, None, None)
+    sem = _traversal_by_interpretation(ctx)
+    if sem is not None:
+        for rule_, label_, ok_, text_ in sem:
+            run.add(rule_, jmod.name, 'DznJsonAst.process', label_, ok_, text_)
+        run.stats['traversal_decided_by'] = 'interpretation of DznJsonAst.process() on the scenario document (E6), leaf parsers by contract'
+        if all(ok_ for _r, _l, ok_, _t in sem):
+            run.floor('C05.dispatch', 20)
+            run.floor('C05.siblings', 3)
+    if sem is None:
+        # ---- dispatch of parse_element, per <class> value ------------------------------------------------------------------
+        # For every tag of the schema the dispatching function is specialised by constant folding (dznverif.specialise): what
+        # remains is what the parser does for an element of that class - whether the source says it with an if / elif chain, a
+        # table of parse functions, a table of records or a table of handler methods.
+        disp, var = pe, 'cls'
         for m_ in parser.methods.values():
-            subj: Dict[str, Set[str]] = {}
-            for c_ in iter_own_nodes(m_.node):
-                if isinstance(c_, ast.Compare) and len(c_.ops) == 1 and isinstance(c_.ops[0], ast.Eq) and \
-                        isinstance(c_.comparators[0], ast.Constant) and c_.comparators[0].value in set(schema_tags) and \
-                        isinstance(c_.left, (ast.Name, ast.Attribute)):
-                    subj.setdefault(ast.unparse(c_.left), set()).add(c_.comparators[0].value)
-            for k_, tags_ in subj.items():
-                if len(tags_) > best[0]:
-                    best = (len(tags_), m_, k_)
-        if best[1] is not None and best[0] >= 5:
-            disp, var, assume_subject = best[1], best[2], best[2]
-    literal_tags = set()
-    for x in ast.walk(jmod.tree):
-        if isinstance(x, ast.Constant) and isinstance(x.value, str) and x.value in CLASS_TAG.values():
-            literal_tags.add(x.value)
-    def core(stmts):
-        """the statements for a dict element: the guard on `isinstance(element, dict)` is peeled off"""
-        out = []
-        for st_ in stmts:
-            if isinstance(st_, ast.If) and 'isinstance(element, dict)' in ast.unparse(st_.test):
-                neg = isinstance(st_.test, ast.UnaryOp) and isinstance(st_.test.op, ast.Not)
-                out.extend(core(st_.orelse if neg else st_.body))
-            elif isinstance(st_, ast.Assign) and isinstance(st_.value, ast.Call) and getattr(st_.value.func, 'id', '') == 'get_class_value':
-                continue
-            else:
-                out.append(st_)
-        return out
+            for a_ in iter_own_nodes(m_.node):
+                if isinstance(a_, ast.Assign) and len(a_.targets) == 1 and isinstance(a_.targets[0], ast.Name) and \
+                        isinstance(a_.value, ast.Call) and getattr(a_.value.func, 'id', '') == 'get_class_value':
+                    disp, var = m_, a_.targets[0].id
+        schema_tags = sorted({CLASS_TAG[c.name] for c in amod.classes.values() if c.name in CLASS_TAG and 'fqn' in c.fields}
+                             | {'file-name', 'import', 'namespace'})
+        assume_subject = None
+        if disp is pe and not any(isinstance(x, ast.Name) and x.id == 'cls' for x in iter_own_nodes(pe.node)):
+            # the class value is not held in a local of parse_element: the dispatching function is the method that compares one
+            # and the same expression with the most class tags (`match visit.cls: case 'component': ...` in a helper method)
+            best = (0, None, None)
+            for m_ in parser.methods.values():
+                subj: Dict[str, Set[str]] = {}
+                for c_ in iter_own_nodes(m_.node):
+                    if isinstance(c_, ast.Compare) and len(c_.ops) == 1 and isinstance(c_.ops[0], ast.Eq) and \
+                            isinstance(c_.comparators[0], ast.Constant) and c_.comparators[0].value in set(schema_tags) and \
+                            isinstance(c_.left, (ast.Name, ast.Attribute)):
+                        subj.setdefault(ast.unparse(c_.left), set()).add(c_.comparators[0].value)
+                for k_, tags_ in subj.items():
+                    if len(tags_) > best[0]:
+                        best = (len(tags_), m_, k_)
+            if best[1] is not None and best[0] >= 5:
+                disp, var, assume_subject = best[1], best[2], best[2]
+        literal_tags = set()
+        for x in ast.walk(jmod.tree):
+            if isinstance(x, ast.Constant) and isinstance(x.value, str) and x.value in CLASS_TAG.values():
+                literal_tags.add(x.value)
+        def core(stmts):
+            """the statements for a dict element: the guard on `isinstance(element, dict)` is peeled off"""
+            out = []
+            for st_ in stmts:
+                if isinstance(st_, ast.If) and 'isinstance(element, dict)' in ast.unparse(st_.test):
+                    neg = isinstance(st_.test, ast.UnaryOp) and isinstance(st_.test.op, ast.Not)
+                    out.extend(core(st_.orelse if neg else st_.body))
+                elif isinstance(st_, ast.Assign) and isinstance(st_.value, ast.Call) and getattr(st_.value.func, 'id', '') == 'get_class_value':
+                    continue
+                else:
+                    out.append(st_)
+            return out
 
-    branches = []
-    for tag in sorted(set(schema_tags) | literal_tags):
-        body = core(residual(prog, disp, {var: tag}) if assume_subject is None else
-                    residual(prog, disp, {}, assume={assume_subject: ast.Constant(value=tag)}))
-        has_parse = any(isinstance(c, ast.Call) and getattr(c.func, 'id', '').startswith('parse_') for s_ in body for c in ast.walk(s_))
-        if has_parse:
-            branches.append((tag, body, f"<class> '{tag}'"))
-    else_body = residual(prog, disp, {var: '<no such class>'}) if assume_subject is None else \
-        residual(prog, disp, {}, assume={assume_subject: ast.Constant(value='<no such class>')})
-    if len({'\n'.join(ast.unparse(s_) for s_ in b_) for _t, b_, _l in branches}) == 1 and len(branches) > 1:
-        run.error('C05.dispatch', disp.module.name, disp.qualname, 'dispatch',
-                  f'the dispatch on the <class> value could not be specialised: the code that remains for an element is the same '
-                  f'for every one of the {len(branches)} classes (the class value is not held where the rule looks for it)')
-        return
-    run.stats['dispatch_function'] = disp.qualname
-    run.stats['dispatch_tags_with_a_parser'] = [t for t, _b, _l in branches]
-    if len(branches) < 5:
-        run.error('C05.dispatch', disp.module.name, disp.qualname, 'dispatch',
-                  f'the dispatch on the <class> value could not be specialised ({len(branches)} of {len(schema_tags)} classes lead '
-                  f'to a parse function)')
-        return
-    pe_report = disp
-    written: Dict[str, List[str]] = {}
-    seen_tags: Set[str] = set()
-    for tag, body, test in branches:
-        seen_tags.add(tag)
-        calls = [c for s in body for c in ast.walk(s) if isinstance(c, ast.Call) and getattr(c.func, 'id', '').startswith('parse_')]
-        if tag == 'namespace':
-            continue
-        if not calls:
-            run.violation('C05.dispatch', pe.module.name, pe.qualname, test, f"branch '{tag}' calls no parse function", node=test)
-            continue
-        pf = jmod.functions.get(calls[0].func.id)
-        ac = _assert_class_literal(pf) if pf else None
-        ret = prog.ann_to_type(pf.module, pf.node.returns, None) if pf else ('any',)
-        ret_cls = prog.classes.get(ret[1]) if ret[0] == 'cls' else None
-        appends = [c for s in body for c in ast.walk(s) if isinstance(c, ast.Call) and isinstance(c.func, ast.Attribute)
-                   and c.func.attr in ('append', 'extend') and isinstance(c.func.value, ast.Attribute)
-                   and c.func.value.attr in fc_fields]
-        primary = [a for a in appends if a.func.attr == 'append']
-        ok_tag = ac == tag
-        run.add('C05.dispatch', pe.module.name, pe.qualname, test, ok_tag,
-                f"'{tag}' -> {pf.name if pf else '?'} which asserts <class> '{ac}'" if ok_tag else
-                f"branch '{tag}' calls {pf.name if pf else '?'} which asserts <class> '{ac}': every such element is "
-                f"rejected or mis-parsed", node=test)
-        if len(primary) != 1:
-            run.violation('C05.dispatch', pe.module.name, pe.qualname, test,
-                          f"branch '{tag}' appends {len(primary)} times (exactly one entry per declaration expected)", node=test)
-            continue
-        field = primary[0].func.value.attr
-        written.setdefault(field, []).append(tag)
-        ec = elem_cls(field)
-        # the appended value is the parse result
-        arg = primary[0].args[0] if primary[0].args else None
-        arg_ok = arg is not None and (arg is calls[0] or (isinstance(arg, ast.Name) and any(
-            isinstance(s, ast.Assign) and isinstance(s.targets[0], ast.Name) and s.targets[0].id == arg.id and s.value is calls[0]
-            for s in body)))
-        ok = ret_cls is not None and ec is ret_cls and arg_ok and CLASS_TAG.get(ret_cls.name) == tag
-        run.add('C05.dispatch', pe.module.name, pe.qualname, primary[0], ok,
-                f"'{tag}' -> {ret_cls.name if ret_cls else '?'} appended to FileContents.{field}" if ok else
-                f"branch '{tag}': result type {ret_cls.name if ret_cls else '?'} / container {field} "
-                f"(List[{ec.name if ec else '?'}]) / schema tag '{CLASS_TAG.get(ret_cls.name) if ret_cls else '?'}' disagree",
-                node=primary[0])
-        if tag == 'interface':
-            hoists = {a.func.value.attr: ast.unparse(a.args[0]) for a in appends if a.func.attr == 'extend'}
-            ok = hoists.get('enums', '').endswith('.types.enums') and hoists.get('subints', '').endswith('.types.subints')
-            run.add('C05.dispatch', pe.module.name, pe.qualname, 'interface: nested types hoisted', ok,
-                    'enums and subints nested in an interface are added to FileContents.enums / subints' if ok else
-                    f'nested types of an interface are not hoisted into FileContents.enums/subints: {hoists}')
-    dup = {f: t for f, t in written.items() if len(t) > 1}
-    run.add('C05.dispatch', pe.module.name, pe.qualname, 'one writer per container', not dup,
-            'every container has exactly one writing branch' if not dup else f'containers written by several branches: {dup}')
-    # coverage: every declaration class of ast.py with fqn + Filename + Import
-    need = {CLASS_TAG[c.name] for c in amod.classes.values() if 'fqn' in c.fields} | {'file-name', 'import', 'namespace'}
-    # a traversal that is organised differently (explicit work list, generator): namespaces are recognised and descended into
-    # by another function than the one that dispatches on the class value
-    ns_elsewhere = [f_ for f_ in jmod.functions.values() if f_ is not disp and
-                    any(isinstance(c_, ast.Compare) and any(isinstance(k_, ast.Constant) and k_.value == 'namespace' for k_ in ast.walk(c_))
-                        for c_ in iter_own_nodes(f_.node)) and
-                    any(isinstance(c_, ast.Call) and getattr(c_.func, 'id', '') == 'parse_namespace' for c_ in iter_own_nodes(f_.node))]
-    ns_elsewhere += [f_ for f_ in parser.methods.values() if f_ is not disp and f_ not in ns_elsewhere and
-                     any(isinstance(c_, ast.Compare) and any(isinstance(k_, ast.Constant) and k_.value == 'namespace' for k_ in ast.walk(c_))
-                         for c_ in iter_own_nodes(f_.node)) and
-                     any(isinstance(c_, ast.Call) and getattr(c_.func, 'id', '') == 'parse_namespace' for c_ in iter_own_nodes(f_.node))]
-    if 'namespace' not in seen_tags and ns_elsewhere:
-        need.discard('namespace')
-    missing = sorted(need - seen_tags)
-    run.add('C05.dispatch', pe.module.name, pe.qualname, 'branch coverage', not missing,
-            f'all {len(need)} declaration classes have a branch' if not missing else
-            f'no branch for <class> {missing}: such declarations are silently dropped')
-    # only the declaration containers (lists of ast classes) have to be fed by the parser; a field of another shape
-    # (a cache, a counter) is not part of the parsed document
-    unwritten = sorted(f for f in set(fc_fields) - set(written) if elem_cls(f) is not None)
-    run.add('C05.dispatch', pe.module.name, pe.qualname, 'container coverage', not unwritten,
-            'every FileContents container is fed' if not unwritten else f'containers never fed: {unwritten}')
-    run.floor('C05.dispatch', 20)
+        branches = []
+        for tag in sorted(set(schema_tags) | literal_tags):
+            body = core(residual(prog, disp, {var: tag}) if assume_subject is None else
+                        residual(prog, disp, {}, assume={assume_subject: ast.Constant(value=tag)}))
+            has_parse = any(isinstance(c, ast.Call) and getattr(c.func, 'id', '').startswith('parse_') for s_ in body for c in ast.walk(s_))
+            if has_parse:
+                branches.append((tag, body, f"<class> '{tag}'"))
+        else_body = residual(prog, disp, {var: '<no such class>'}) if assume_subject is None else \
+            residual(prog, disp, {}, assume={assume_subject: ast.Constant(value='<no such class>')})
+        if len({'\n'.join(ast.unparse(s_) for s_ in b_) for _t, b_, _l in branches}) == 1 and len(branches) > 1:
+            run.error('C05.dispatch', disp.module.name, disp.qualname, 'dispatch',
+                      f'the dispatch on the <class> value could not be specialised: the code that remains for an element is the same '
+                      f'for every one of the {len(branches)} classes (the class value is not held where the rule looks for it)')
+            return
+        run.stats['dispatch_function'] = disp.qualname
+        run.stats['dispatch_tags_with_a_parser'] = [t for t, _b, _l in branches]
+        if len(branches) < 5:
+            run.error('C05.dispatch', disp.module.name, disp.qualname, 'dispatch',
+                      f'the dispatch on the <class> value could not be specialised ({len(branches)} of {len(schema_tags)} classes lead '
+                      f'to a parse function)')
+            return
+        pe_report = disp
+        written: Dict[str, List[str]] = {}
+        seen_tags: Set[str] = set()
+        for tag, body, test in branches:
+            seen_tags.add(tag)
+            calls = [c for s in body for c in ast.walk(s) if isinstance(c, ast.Call) and getattr(c.func, 'id', '').startswith('parse_')]
+            if tag == 'namespace':
+                continue
+            if not calls:
+                run.violation('C05.dispatch', pe.module.name, pe.qualname, test, f"branch '{tag}' calls no parse function", node=test)
+                continue
+            pf = jmod.functions.get(calls[0].func.id)
+            ac = _assert_class_literal(pf) if pf else None
+            ret = prog.ann_to_type(pf.module, pf.node.returns, None) if pf else ('any',)
+            ret_cls = prog.classes.get(ret[1]) if ret[0] == 'cls' else None
+            appends = [c for s in body for c in ast.walk(s) if isinstance(c, ast.Call) and isinstance(c.func, ast.Attribute)
+                       and c.func.attr in ('append', 'extend') and isinstance(c.func.value, ast.Attribute)
+                       and c.func.value.attr in fc_fields]
+            primary = [a for a in appends if a.func.attr == 'append']
+            ok_tag = ac == tag
+            run.add('C05.dispatch', pe.module.name, pe.qualname, test, ok_tag,
+                    f"'{tag}' -> {pf.name if pf else '?'} which asserts <class> '{ac}'" if ok_tag else
+                    f"branch '{tag}' calls {pf.name if pf else '?'} which asserts <class> '{ac}': every such element is "
+                    f"rejected or mis-parsed", node=test)
+            if len(primary) != 1:
+                run.violation('C05.dispatch', pe.module.name, pe.qualname, test,
+                              f"branch '{tag}' appends {len(primary)} times (exactly one entry per declaration expected)", node=test)
+                continue
+            field = primary[0].func.value.attr
+            written.setdefault(field, []).append(tag)
+            ec = elem_cls(field)
+            # the appended value is the parse result
+            arg = primary[0].args[0] if primary[0].args else None
+            arg_ok = arg is not None and (arg is calls[0] or (isinstance(arg, ast.Name) and any(
+                isinstance(s, ast.Assign) and isinstance(s.targets[0], ast.Name) and s.targets[0].id == arg.id and s.value is calls[0]
+                for s in body)))
+            ok = ret_cls is not None and ec is ret_cls and arg_ok and CLASS_TAG.get(ret_cls.name) == tag
+            run.add('C05.dispatch', pe.module.name, pe.qualname, primary[0], ok,
+                    f"'{tag}' -> {ret_cls.name if ret_cls else '?'} appended to FileContents.{field}" if ok else
+                    f"branch '{tag}': result type {ret_cls.name if ret_cls else '?'} / container {field} "
+                    f"(List[{ec.name if ec else '?'}]) / schema tag '{CLASS_TAG.get(ret_cls.name) if ret_cls else '?'}' disagree",
+                    node=primary[0])
+            if tag == 'interface':
+                hoists = {a.func.value.attr: ast.unparse(a.args[0]) for a in appends if a.func.attr == 'extend'}
+                ok = hoists.get('enums', '').endswith('.types.enums') and hoists.get('subints', '').endswith('.types.subints')
+                run.add('C05.dispatch', pe.module.name, pe.qualname, 'interface: nested types hoisted', ok,
+                        'enums and subints nested in an interface are added to FileContents.enums / subints' if ok else
+                        f'nested types of an interface are not hoisted into FileContents.enums/subints: {hoists}')
+        dup = {f: t for f, t in written.items() if len(t) > 1}
+        run.add('C05.dispatch', pe.module.name, pe.qualname, 'one writer per container', not dup,
+                'every container has exactly one writing branch' if not dup else f'containers written by several branches: {dup}')
+        # coverage: every declaration class of ast.py with fqn + Filename + Import
+        need = {CLASS_TAG[c.name] for c in amod.classes.values() if 'fqn' in c.fields} | {'file-name', 'import', 'namespace'}
+        # a traversal that is organised differently (explicit work list, generator): namespaces are recognised and descended into
+        # by another function than the one that dispatches on the class value
+        ns_elsewhere = [f_ for f_ in jmod.functions.values() if f_ is not disp and
+                        any(isinstance(c_, ast.Compare) and any(isinstance(k_, ast.Constant) and k_.value == 'namespace' for k_ in ast.walk(c_))
+                            for c_ in iter_own_nodes(f_.node)) and
+                        any(isinstance(c_, ast.Call) and getattr(c_.func, 'id', '') == 'parse_namespace' for c_ in iter_own_nodes(f_.node))]
+        ns_elsewhere += [f_ for f_ in parser.methods.values() if f_ is not disp and f_ not in ns_elsewhere and
+                         any(isinstance(c_, ast.Compare) and any(isinstance(k_, ast.Constant) and k_.value == 'namespace' for k_ in ast.walk(c_))
+                             for c_ in iter_own_nodes(f_.node)) and
+                         any(isinstance(c_, ast.Call) and getattr(c_.func, 'id', '') == 'parse_namespace' for c_ in iter_own_nodes(f_.node))]
+        if 'namespace' not in seen_tags and ns_elsewhere:
+            need.discard('namespace')
+        missing = sorted(need - seen_tags)
+        run.add('C05.dispatch', pe.module.name, pe.qualname, 'branch coverage', not missing,
+                f'all {len(need)} declaration classes have a branch' if not missing else
+                f'no branch for <class> {missing}: such declarations are silently dropped')
+        # only the declaration containers (lists of ast classes) have to be fed by the parser; a field of another shape
+        # (a cache, a counter) is not part of the parsed document
+        unwritten = sorted(f for f in set(fc_fields) - set(written) if elem_cls(f) is not None)
+        run.add('C05.dispatch', pe.module.name, pe.qualname, 'container coverage', not unwritten,
+                'every FileContents container is fed' if not unwritten else f'containers never fed: {unwritten}')
+        run.floor('C05.dispatch', 20)
 
     # the nested types of an interface are handed on through Types.enums / Types.subints: complete, order-preserving
     # selections of `elements` by class (E4 evaluation of the two properties)
@@ -318,75 +330,76 @@ def check(ctx):
         run.add('C05.dispatch', pt.module.name, pt.qualname, 'nested type coverage', ok,
                 'enum and subint nested types are parsed' if ok else f'nested types handled: {sorted(tags)}')
 
-    # ---- C05.siblings ------------------------------------------------------------------------------------------------------
-    # an element of an unknown class, or one that is not a dict, is skipped: handling it must not raise (the loops over the
-    # siblings - root elements, namespace members - are in the callers and go on after a plain return)
-    non_dict = []
-    for s_ in else_body:
-        for x in ast.walk(s_):
-            if isinstance(x, ast.If) and 'isinstance(element, dict)' in ast.unparse(x.test):
-                neg = isinstance(x.test, ast.UnaryOp) and isinstance(x.test.op, ast.Not)
-                non_dict.extend(x.body if neg else x.orelse)
-    for label, body in (('unknown <class>', else_body), ('non-dict element', non_dict)):
-        bad = [x for s_ in body for x in ast.walk(s_) if isinstance(x, (ast.Raise, ast.Break))]
-        run.add('C05.siblings', pe.module.name, disp.qualname, bad[0] if bad else f'{label} branch', not bad,
-                f'{label}: skipped without affecting siblings' if not bad else
-                f'{label}: handling it raises / leaves the loop - following siblings are lost', node=bad[0] if bad else None)
-    ns_branch = next((b for t, b, _x in branches if t == 'namespace'), None)
-    if ns_branch is None and ns_elsewhere:
-        run.error('C05.siblings', pe.module.name, ns_elsewhere[0].qualname, 'namespace traversal',
-                  f'namespaces are recognised in {ns_elsewhere[0].qualname}, not in the dispatching function {disp.qualname}: the '
-                  f'traversal (work list / generator) is not of a form this rule can follow - that every member of a namespace '
-                  f'and every root element is parsed once under the right scope is not decided')
-    elif ns_branch is None:
-        run.violation('C05.siblings', pe.module.name, pe.qualname, 'namespace branch', 'namespaces are not descended into')
-    elif not [s for s in ns_branch if isinstance(s, ast.For)] and any(
-            isinstance(s, ast.Return) and isinstance(getattr(s, 'value', None), (ast.Tuple, ast.Call)) and
-            '.elements' in ast.unparse(s.value) for s in ns_branch):
-        run.error('C05.siblings', pe.module.name, disp.qualname, 'namespace traversal',
-                  f'the namespace branch of {disp.qualname} hands the members of the namespace back to its caller instead of '
-                  f'parsing them itself (work list / iterator stack): that every member and every root element is parsed once '
-                  f'under the right scope is not decided by this rule')
-        ns_elsewhere = ns_elsewhere or [disp]
-        ns_branch = None
-    else:
-        loops = [s for s in ns_branch if isinstance(s, ast.For)]
-        ok = False
-        why = 'namespace branch does not recurse over every sub-element with a child scope'
-        if len(loops) == 1:
-            lp = loops[0]
-            it = ast.unparse(lp.iter)
-            rec = [c for c in ast.walk(lp) if isinstance(c, ast.Call) and isinstance(c.func, ast.Attribute) and c.func.attr == 'parse_element']
-            trees = [s for s in ns_branch if isinstance(s, ast.Assign) and isinstance(s.value, ast.Call) and getattr(s.value.func, 'id', '') == 'NamespaceTree']
-            nsvar = next((ast.unparse(s.targets[0]) for s in ns_branch if isinstance(s, ast.Assign) and isinstance(s.value, ast.Call)
-                          and getattr(s.value.func, 'id', '') == 'parse_namespace'), None)
-            if rec and trees and nsvar:
-                tr = trees[0]
-                kw = {k.arg: ast.unparse(k.value) for k in tr.value.keywords}
-                pos = [ast.unparse(a) for a in tr.value.args]
-                parent = kw.get('parent', pos[0] if pos else '')
-                scope = kw.get('scope_name', pos[1] if len(pos) > 1 else '')
-                pn = pe.params()[2].arg if len(pe.params()) > 2 else 'parent_ns'
-                sub = ast.unparse(tr.targets[0])
-                ok = it == f'{nsvar}.elements' and parent == pn and scope == f'{nsvar}.scope_name.value' and \
-                    len(rec) == 1 and [ast.unparse(a) for a in rec[0].args] == [getattr(lp.target, 'id', ''), sub] and \
-                    len(lp.body) == 1
-                if ok:
-                    why = 'every sub-element of a namespace is parsed under a child scope named after the namespace'
-                else:
-                    why = (f'namespace recursion: iterates `{it}`, child scope NamespaceTree(parent={parent}, '
-                           f'scope_name={scope}), recursive call args {[ast.unparse(a) for a in rec[0].args]}')
-        run.add('C05.siblings', pe.module.name, pe.qualname, loops[0] if loops else 'namespace recursion', ok, why)
-    # process() feeds every root element with the root scope
-    proc = parser.methods.get('process')
-    loops = [n for n in iter_own_nodes(proc.node) if isinstance(n, ast.For) and 'parse_element' in ast.unparse(n)] if proc else []
-    ok = len(loops) == 1 and not isinstance(loops[0].iter, ast.Call) and ast.unparse(loops[0].iter).endswith('.elements') and len(loops[0].body) == 1 and \
-        'parse_element' in ast.unparse(loops[0].body[0]) and 'self._ns_trail' in ast.unparse(loops[0].body[0])
-    if not (ns_branch is None and ns_elsewhere):
-        run.add('C05.siblings', jmod.name, 'DznJsonAst.process', loops[0] if loops else 'process loop', ok,
-                'process() parses every root element in order under the root scope' if ok else
-                'process() does not feed every root element to parse_element under the root scope')
-    run.floor('C05.siblings', 4)
+    if sem is None:
+        # ---- C05.siblings ------------------------------------------------------------------------------------------------------
+        # an element of an unknown class, or one that is not a dict, is skipped: handling it must not raise (the loops over the
+        # siblings - root elements, namespace members - are in the callers and go on after a plain return)
+        non_dict = []
+        for s_ in else_body:
+            for x in ast.walk(s_):
+                if isinstance(x, ast.If) and 'isinstance(element, dict)' in ast.unparse(x.test):
+                    neg = isinstance(x.test, ast.UnaryOp) and isinstance(x.test.op, ast.Not)
+                    non_dict.extend(x.body if neg else x.orelse)
+        for label, body in (('unknown <class>', else_body), ('non-dict element', non_dict)):
+            bad = [x for s_ in body for x in ast.walk(s_) if isinstance(x, (ast.Raise, ast.Break))]
+            run.add('C05.siblings', pe.module.name, disp.qualname, bad[0] if bad else f'{label} branch', not bad,
+                    f'{label}: skipped without affecting siblings' if not bad else
+                    f'{label}: handling it raises / leaves the loop - following siblings are lost', node=bad[0] if bad else None)
+        ns_branch = next((b for t, b, _x in branches if t == 'namespace'), None)
+        if ns_branch is None and ns_elsewhere:
+            run.error('C05.siblings', pe.module.name, ns_elsewhere[0].qualname, 'namespace traversal',
+                      f'namespaces are recognised in {ns_elsewhere[0].qualname}, not in the dispatching function {disp.qualname}: the '
+                      f'traversal (work list / generator) is not of a form this rule can follow - that every member of a namespace '
+                      f'and every root element is parsed once under the right scope is not decided')
+        elif ns_branch is None:
+            run.violation('C05.siblings', pe.module.name, pe.qualname, 'namespace branch', 'namespaces are not descended into')
+        elif not [s for s in ns_branch if isinstance(s, ast.For)] and any(
+                isinstance(s, ast.Return) and isinstance(getattr(s, 'value', None), (ast.Tuple, ast.Call)) and
+                '.elements' in ast.unparse(s.value) for s in ns_branch):
+            run.error('C05.siblings', pe.module.name, disp.qualname, 'namespace traversal',
+                      f'the namespace branch of {disp.qualname} hands the members of the namespace back to its caller instead of '
+                      f'parsing them itself (work list / iterator stack): that every member and every root element is parsed once '
+                      f'under the right scope is not decided by this rule')
+            ns_elsewhere = ns_elsewhere or [disp]
+            ns_branch = None
+        else:
+            loops = [s for s in ns_branch if isinstance(s, ast.For)]
+            ok = False
+            why = 'namespace branch does not recurse over every sub-element with a child scope'
+            if len(loops) == 1:
+                lp = loops[0]
+                it = ast.unparse(lp.iter)
+                rec = [c for c in ast.walk(lp) if isinstance(c, ast.Call) and isinstance(c.func, ast.Attribute) and c.func.attr == 'parse_element']
+                trees = [s for s in ns_branch if isinstance(s, ast.Assign) and isinstance(s.value, ast.Call) and getattr(s.value.func, 'id', '') == 'NamespaceTree']
+                nsvar = next((ast.unparse(s.targets[0]) for s in ns_branch if isinstance(s, ast.Assign) and isinstance(s.value, ast.Call)
+                              and getattr(s.value.func, 'id', '') == 'parse_namespace'), None)
+                if rec and trees and nsvar:
+                    tr = trees[0]
+                    kw = {k.arg: ast.unparse(k.value) for k in tr.value.keywords}
+                    pos = [ast.unparse(a) for a in tr.value.args]
+                    parent = kw.get('parent', pos[0] if pos else '')
+                    scope = kw.get('scope_name', pos[1] if len(pos) > 1 else '')
+                    pn = pe.params()[2].arg if len(pe.params()) > 2 else 'parent_ns'
+                    sub = ast.unparse(tr.targets[0])
+                    ok = it == f'{nsvar}.elements' and parent == pn and scope == f'{nsvar}.scope_name.value' and \
+                        len(rec) == 1 and [ast.unparse(a) for a in rec[0].args] == [getattr(lp.target, 'id', ''), sub] and \
+                        len(lp.body) == 1
+                    if ok:
+                        why = 'every sub-element of a namespace is parsed under a child scope named after the namespace'
+                    else:
+                        why = (f'namespace recursion: iterates `{it}`, child scope NamespaceTree(parent={parent}, '
+                               f'scope_name={scope}), recursive call args {[ast.unparse(a) for a in rec[0].args]}')
+            run.add('C05.siblings', pe.module.name, pe.qualname, loops[0] if loops else 'namespace recursion', ok, why)
+        # process() feeds every root element with the root scope
+        proc = parser.methods.get('process')
+        loops = [n for n in iter_own_nodes(proc.node) if isinstance(n, ast.For) and 'parse_element' in ast.unparse(n)] if proc else []
+        ok = len(loops) == 1 and not isinstance(loops[0].iter, ast.Call) and ast.unparse(loops[0].iter).endswith('.elements') and len(loops[0].body) == 1 and \
+            'parse_element' in ast.unparse(loops[0].body[0]) and 'self._ns_trail' in ast.unparse(loops[0].body[0])
+        if not (ns_branch is None and ns_elsewhere):
+            run.add('C05.siblings', jmod.name, 'DznJsonAst.process', loops[0] if loops else 'process loop', ok,
+                    'process() parses every root element in order under the root scope' if ok else
+                    'process() does not feed every root element to parse_element under the root scope')
+        run.floor('C05.siblings', 4)
 
     # ---- C05.fields / C05.order ----------------------------------------------------------------------------------------------
     n_ctor = 0
@@ -831,3 +844,288 @@ def _types_loop(ctx, fn: FuncInfo, var: Optional[str]):
         ok = not others
     run.add('C05.order', fn.module.name, fn.qualname, loops[0] if loops else 'types loop', ok,
             'nested types are appended in source order' if ok else 'nested types are not collected in source order')
+
+
+# ---- the traversal decided by interpretation (E6) --------------------------------------------------------------------------------
+def _traversal_by_interpretation(ctx):
+    """DznJsonAst.process() interpreted (dznverif.scenario) on a scenario document, the leaf parsers replaced by their
+    contract.  The traversal - process / parse_element and whatever they are organised into: if-chains, tables of functions or
+    handler names, helper methods, work lists, generators - only looks at the <class> tag of an element and at whether it is a
+    dict; what a declaration contains is the business of its parse function (C05.fields / C05.order / C15).  So every parse
+    function that asserts the tag of a declaration class is replaced by: `an element with that tag -> one new instance of the
+    function's return class (an interface with nested enum, subint, enum), any other element -> DznJsonError`, and the
+    document holds every declaration class at namespace depth 0, 1 and 2, before and after a nested namespace, twice in a row,
+    in a re-opened namespace, next to elements of unknown class, of a class that is no member (port) and elements that are no
+    dict.  Expected: per FileContents container exactly the instances made for the elements of its class, in document order,
+    each parsed under the namespace it is declared in; nested enums / subints of an interface right where the interface is.
+
+    Returns None when the code cannot be interpreted (the shape rules decide then), else a list of (rule, label, ok, text)."""
+    from ..scenario import Interp, Raised, Undecided, Obj
+    run, prog = ctx.run, ctx.prog
+    jmod, amod = prog.module('json_ast'), prog.module('ast')
+    parser = prog.cls('json_ast', 'DznJsonAst')
+    fc = prog.cls('ast', 'FileContents')
+    err = prog.classes.get('dznpy.json_ast.DznJsonError')
+    proc = parser.methods.get('process')
+    if proc is None or err is None:
+        return None
+    fc_fields = prog.class_fields(fc)
+    decl_tags = sorted({CLASS_TAG[c.name] for c in amod.classes.values() if c.name in CLASS_TAG and 'fqn' in c.fields} | {'file-name', 'import'})
+    # the leaf parsers and their contract
+    stubs: Dict[str, Tuple[str, ClassInfo, FuncInfo]] = {}
+    for f in jmod.functions.values():
+        tag = _assert_class_literal(f)
+        if tag in decl_tags and f.name.startswith('parse_') and f.node.returns is not None:
+            rt = prog.ann_to_type(f.module, f.node.returns, None)
+            rc = prog.classes.get(rt[1]) if rt[0] == 'cls' else None
+            if rc is None or CLASS_TAG.get(rc.name) != tag:
+                continue
+            if any(t == tag for t, _c, _f in stubs.values()):
+                return None            # two parse functions for one declaration class: which one is meant is not known here
+            stubs[f.fq] = (tag, rc, f)
+    if {t for t, _c, _f in stubs.values()} != set(decl_tags):
+        return None
+    container_of: Dict[str, str] = {}
+    for tag, rc, _f in stubs.values():
+        fields = [fl for fl in fc_fields if (lambda t: t[0] == 'list' and t[1] == ('cls', rc.fq))(prog.ann_to_type(fc.module, fc_fields[fl][0], fc))]
+        if len(fields) != 1:
+            return None
+        container_of[tag] = fields[0]
+    takes_ns = {tag: len(f.params()) > 1 for tag, _rc, f in stubs.values()}
+    types_cls, enum_cls, subint_cls = amod.classes.get('Types'), amod.classes.get('Enum'), amod.classes.get('SubInt')
+    if None in (types_cls, enum_cls, subint_cls):
+        return None
+
+    class StubObj(Obj):
+        pass
+
+    class It(Interp):
+        def call_function(self, fn, args, kwargs, self_val=None, closure=None, depth=0):
+            st = stubs.get(fn.fq)
+            if st is None:
+                return super().call_function(fn, args, kwargs, self_val=self_val, closure=closure, depth=depth)
+            tag, rc, f = st
+            names = [a.arg for a in f.params()]
+            bound = dict(zip(names, args))
+            bound.update(kwargs)
+            el = bound.get(names[0]) if names else None
+            if not isinstance(el, dict) or el.get('<class>') != tag:
+                raise Raised(err.fq, f'{f.name}: element is no {tag}')
+            o = StubObj(rc, {'__of__': el['__id__'], '__ns__': bound.get(names[1]) if len(names) > 1 else None,
+                             '__has_ns__': len(names) > 1})
+            self.made.append(o)
+            if tag == 'interface':
+                nested = [StubObj(enum_cls, {'__of__': f"{el['__id__']}/e1"}), StubObj(subint_cls, {'__of__': f"{el['__id__']}/s1"}),
+                          StubObj(enum_cls, {'__of__': f"{el['__id__']}/e2"})]
+                o.fields['types'] = self.construct(types_cls, [], {'elements': nested})
+            return o
+
+        def getattr(self, base, attr, fn, depth):
+            if isinstance(base, StubObj) and attr not in base.fields and self.prog.lookup_method(base.cls, attr) is None:
+                raise Undecided(f'the traversal looks into a parsed {base.cls.name} (.{attr})')
+            return super().getattr(base, attr, fn, depth)
+
+    counter = [0]
+
+    def decl(tag):
+        counter[0] += 1
+        return {'<class>': tag, '__id__': f'{tag}#{counter[0]}'}
+
+    def namespace(ids, elements):
+        return {'<class>': 'namespace', 'name': {'<class>': 'scope_name', 'ids': list(ids)}, 'elements': elements}
+
+    def all_decls():
+        return [decl(t) for t in decl_tags]
+
+    def junk():
+        counter[0] += 1
+        return [{'<class>': 'no-such-class', '__id__': f'unknown#{counter[0]}'}, 17, 'text', None, ['list'],
+                {'<class>': 'port', '__id__': f'port#{counter[0]}'}]
+
+    def document(elements):
+        return {'<class>': 'root', 'working-directory': 'wd', 'elements': elements}
+
+    def expected_of(elements, ns, out):
+        for el in elements:
+            if not isinstance(el, dict):
+                continue
+            tag = el.get('<class>')
+            if tag == 'namespace':
+                expected_of(el['elements'], ns + list(el['name']['ids']), out)
+            elif tag in container_of:
+                out.setdefault(container_of[tag], []).append((el['__id__'], tuple(ns) if takes_ns[tag] else None))
+                if tag == 'interface':
+                    out.setdefault(container_of['enum'], []).append((f"{el['__id__']}/e1", None))
+                    out.setdefault(container_of['subint'], []).append((f"{el['__id__']}/s1", None))
+                    out.setdefault(container_of['enum'], []).append((f"{el['__id__']}/e2", None))
+        return out
+
+    def run_doc(elements):
+        """-> (contents per container: [(id, ns fqn or None)], exception name or None)"""
+        it = It(prog)
+        it.MAX_STEPS = 4000000
+        it.made = []
+        p = it.construct(parser, [], {})
+        p.fields['_ast'] = document(elements)
+        try:
+            res = it.call_function(proc, [], {}, self_val=p)
+        except Raised as exc:
+            return None, exc.name
+        if not isinstance(res, Obj) or res.cls is not fc:
+            raise Undecided('process() does not hand back a FileContents')
+        got: Dict[str, List[Tuple[str, Any]]] = {}
+        for fl in set(container_of.values()):
+            seq = res.fields.get(fl)
+            if not isinstance(seq, list):
+                raise Undecided(f'FileContents.{fl} is no list')
+            for o in seq:
+                if not isinstance(o, StubObj):
+                    got.setdefault(fl, []).append((f'<{o!r}>'[:40], None))
+                    continue
+                ns = o.fields.get('__ns__')
+                path = None
+                if o.fields.get('__has_ns__'):
+                    if not isinstance(ns, Obj):
+                        path = ('<no namespace node>',)
+                    else:
+                        fq = it.getattr(ns, 'fqn', proc, 0)
+                        items = fq.fields.get('items') if isinstance(fq, Obj) else None
+                        if not isinstance(items, list):
+                            raise Undecided('NamespaceTree.fqn is not interpreted')
+                        path = tuple(items)
+                got.setdefault(fl, []).append((o.fields['__of__'], path))
+        return got, None
+
+    results: List[Tuple[str, str, bool, str]] = []
+    try:
+        # -- the main document ------------------------------------------------------------------------------------------------
+        d0 = all_decls()
+        twice = [decl('component'), decl('component'), decl('enum'), decl('enum')]
+        inner = namespace(['C'], all_decls() + junk() + [decl('enum')])
+        ns1 = namespace(['A', 'B'], all_decls() + junk() + [inner] + all_decls())
+        reopened = namespace(['A', 'B'], [decl('enum'), decl('interface'), namespace(['C'], [decl('system')])])
+        empty_ns = namespace(['E'], [])
+        # namespaces of the same local name under different parents (a node cached by name would give the wrong scope)
+        same_name = [namespace(['X'], [namespace(['C'], [decl('enum'), decl('component')]), namespace(['A', 'B'], [decl('interface')]),
+                                       namespace(['X'], [decl('extern')])]),
+                     namespace(['C'], [decl('enum'), namespace(['A'], [namespace(['B'], [decl('foreign')])])])]
+        elements = d0 + junk() + [decl('system')] + junk() + [ns1] + twice + [empty_ns, reopened] + same_name + all_decls()
+        exp = expected_of(elements, [], {})
+        got, exc = run_doc(elements)
+        if exc is not None:
+            # which kind of element is it?  (each alone between two declarations)
+            blame = []
+            for label, els in [('an element of unknown <class>', [junk()[0]]), ('an element that is no dict', [17]),
+                               ('an element that is None', [None]), ('an element of a class that is no member (port)', [junk()[5]]),
+                               ('a namespace', [namespace(['N'], [decl('enum')])]), ('an empty namespace', [namespace(['N'], [])])] + \
+                    [(f'a {t} declaration', [decl(t)]) for t in decl_tags]:
+                g2, e2 = run_doc([decl('enum')] + els + [decl('enum')])
+                if e2 is not None:
+                    blame.append((label, e2))
+            if not blame:
+                blame = [('the scenario document', exc)]
+            for label, e2 in blame:
+                sib = 'declaration' not in label and 'namespace' not in label
+                results.append(('C05.siblings' if sib else 'C05.dispatch', label, False,
+                                f'{label} makes process() fail with {e2.split(".")[-1]}: the declarations next to it are lost'))
+            return results
+        n_decl = sum(len(v) for v in exp.values())
+        for tag in decl_tags:
+            fl = container_of[tag]
+            want = [x for x in exp.get(fl, []) if x[0].split('#')[0] == tag]
+            have = [x for x in got.get(fl, []) if x[0].split('#')[0] == tag and '/' not in x[0]]
+            elsewhere = [(f2, x[0]) for f2, seq in got.items() if f2 != fl for x in seq if x[0].split('#')[0] == tag and '/' not in x[0]]
+            problems = []
+            ids_w, ids_h = [x[0] for x in want], [x[0] for x in have]
+            missing = [i for i in ids_w if i not in ids_h]
+            dup = sorted({i for i in ids_h if ids_h.count(i) > 1})
+            if missing:
+                problems.append(f'{len(missing)} of {len(ids_w)} {tag} declarations have no entry in FileContents.{fl} (e.g. the one '
+                                f'{_where(missing[0], elements)})')
+            if dup:
+                problems.append(f'{len(dup)} {tag} declarations are entered more than once in FileContents.{fl}')
+            if elsewhere:
+                problems.append(f'{tag} declarations are entered in FileContents.{elsewhere[0][0]}')
+            if not missing and not dup and ids_h != ids_w:
+                problems.append(f'the {tag} entries of FileContents.{fl} are not in document order')
+            wrong_ns = [(i, n_, dict(want).get(i)) for i, n_ in have if i in dict(want) and n_ != dict(want)[i]]
+            if wrong_ns:
+                i, n_, w_ = wrong_ns[0]
+                problems.append(f'{len(wrong_ns)} {tag} declarations are parsed under the wrong namespace (the one {_where(i, elements)}: '
+                                f'under `{".".join(n_ or ()) or "<root>"}` instead of `{".".join(w_ or ()) or "<root>"}`)')
+            results.append(('C05.dispatch', f"<class> '{tag}'", not problems,
+                            f"every '{tag}' element ({len(ids_w)} in the scenario document, at namespace depth 0-3) is parsed by "
+                            f"{next(f.name for t, _c, f in stubs.values() if t == tag)} under its enclosing namespaces and entered exactly once, "
+                            f"in document order, in FileContents.{fl}" if not problems else '; '.join(problems)))
+        # nested types of interfaces
+        for tag, marks in (('enum', ('/e1', '/e2')), ('subint', ('/s1',))):
+            fl = container_of[tag]
+            ok = got.get(fl, []) == exp.get(fl, [])
+            nested_w = [x[0] for x in exp.get(fl, []) if '/' in x[0]]
+            nested_h = [x[0] for x in got.get(fl, []) if '/' in x[0]]
+            if nested_w != nested_h:
+                text = (f'the {tag}s nested in an interface are not all entered once, in order, in FileContents.{fl}: '
+                        f'{len(nested_h)} entries for {len(nested_w)} nested declarations' if sorted(nested_w) != sorted(nested_h) else
+                        f'the {tag}s nested in interfaces are entered in another order than they are declared')
+                results.append(('C05.dispatch', f'interface: nested {tag}s hoisted', False, text))
+            else:
+                results.append(('C05.dispatch', f'interface: nested {tag}s hoisted', ok or True,
+                                f'the {tag}s nested in an interface are entered in FileContents.{fl}, in their order'))
+        for fl in sorted(set(container_of.values())):
+            ok = got.get(fl, []) == exp.get(fl, [])
+            extra = [x[0] for x in got.get(fl, []) if x[0] not in [y[0] for y in exp.get(fl, [])]]
+            results.append(('C05.dispatch', f'FileContents.{fl}', ok,
+                            f'FileContents.{fl} holds exactly the {len(exp.get(fl, []))} expected entries in document order' if ok else
+                            (f'FileContents.{fl} holds entries nothing in the document declares: {extra[:2]}' if extra else
+                             f'FileContents.{fl} differs from the declarations of the document: {len(got.get(fl, []))} entries for '
+                             f'{len(exp.get(fl, []))} declarations, or in another order (hoisted nested types stand where their interface is)')))
+        # the same comparison, told by where a declaration stands
+        have_all = {x[0]: x[1] for seq in got.values() for x in seq}
+        want_all = {x[0]: x[1] for seq in exp.values() for x in seq if '/' not in x[0]}
+        at_root = {el['__id__'] for el in elements if isinstance(el, dict) and '__id__' in el}
+        after_junk = set()
+
+        def mark(els):
+            for a_, b_ in zip(els, els[1:]):
+                if isinstance(b_, dict) and b_.get('__id__') in want_all and not (isinstance(a_, dict) and a_.get('<class>') in container_of):
+                    after_junk.add(b_['__id__'])
+            for el in els:
+                if isinstance(el, dict) and el.get('<class>') == 'namespace':
+                    mark(el['elements'])
+        mark(elements)
+        lost_after_junk = sorted(i for i in after_junk if i not in have_all)
+        results.append(('C05.siblings', 'unknown <class> / non-dict / non-member elements', not lost_after_junk,
+                        'elements of unknown class, of a class that is no member of a namespace (port) and values that are no dict '
+                        '(number, string, null, list) are skipped at every depth: all declarations around them are entered' if not lost_after_junk else
+                        f'{len(lost_after_junk)} declarations that follow an element that is skipped (unknown class, no dict, no member, a '
+                        f'namespace) are lost, e.g. the one {_where(lost_after_junk[0], elements)}'))
+        in_ns = [i for i in want_all if i not in at_root]
+        bad_ns = [i for i in in_ns if i not in have_all or have_all[i] != want_all[i]]
+        results.append(('C05.siblings', 'namespace members', not bad_ns,
+                        f'every member of a namespace - nested, empty, re-opened, multi-identifier - is parsed under the scope of all '
+                        f'enclosing namespaces ({len(in_ns)} declarations compared by NamespaceTree.fqn)' if not bad_ns else
+                        f'{len(bad_ns)} of the {len(in_ns)} declarations inside namespaces are not parsed or parsed under another scope than '
+                        f'their enclosing namespaces, e.g. the one {_where(bad_ns[0], elements)}: ' +
+                        ('not entered' if bad_ns[0] not in have_all else
+                         f'under `{".".join(have_all[bad_ns[0]] or ()) or "<root>"}` instead of `{".".join(want_all[bad_ns[0]] or ()) or "<root>"}`')))
+        bad_root = [i for i in want_all if i in at_root and (i not in have_all or have_all[i] != want_all[i])]
+        results.append(('C05.siblings', 'root elements', not bad_root,
+                        'every root element is parsed in order under the root scope' if not bad_root else
+                        f'{len(bad_root)} declarations at the root of the document are not parsed (or not under the root scope), e.g. the one '
+                        f'{_where(bad_root[0], elements)}'))
+        # a declaration that its own parser refuses (wrong tag handed over) would have shown as a missing entry / an exception
+        return results
+    except Undecided as exc:
+        run.remark(f'C05: the traversal could not be interpreted on the scenario document ({exc}); the shape rules decide')
+        return None
+
+
+def _where(ident: str, elements, path=()) -> str:
+    for i, el in enumerate(elements):
+        if isinstance(el, dict) and el.get('__id__') == ident:
+            return f'at position {i} of ' + ('the root' if not path else 'namespace ' + '.'.join(path))
+        if isinstance(el, dict) and el.get('<class>') == 'namespace':
+            r = _where(ident, el['elements'], path + tuple(el['name']['ids']))
+            if r:
+                return r
+    return ''
